@@ -172,6 +172,8 @@ PROPS["C03"]["parts"].append(dict(name="pubstore03", domain="store", domain_modu
 # Sequential handlers (also synchronous ones that publish to other handlers), re-entrant registry calls, shared option values
 PROPS["C03"]["parts"].append(dict(name="bus03", domain="bus", domain_module="bus", gen=bus.make_gen("C03"), n_quick=200, n_thorough=6000, chunk=128))
 
+# C09: a store closed by a Shutdown that gave up would swallow the records of everything published afterwards
+PROPS["C09"]["parts"].append(dict(name="shutdown09", domain="shutdown", domain_module="shutdown", gen=shutdown.gen, n_quick=20, n_thorough=400, chunk=8, jobs=8))
 PROPS["C03"]["parts"].append(dict(name="shutdown03", domain="shutdown", domain_module="shutdown", gen=shutdown.gen, n_quick=20, n_thorough=400, chunk=8, jobs=8))
 
 # C04 on the sequential machine as well: once handlers with filters, dead contexts (cancelled and deadline-expired), the
